@@ -21,6 +21,16 @@ def exhaustive_items():
                         ex.append('%s/%s::%s%s' % (sel, ax, t, p))
                 for k in range(0, len(ex), 28):
                     out.append({'doc': d, 'exprs': ex[k:k + 28], 'merged': True, 'binds': [('p', 'urn:p')]})
+        # `//` in the middle of a path followed by a step with a positional predicate: the predicate counts among
+        # the children of EACH descendant-or-self node, not among all matching descendants (XPath 1.0 2.5, NOTE)
+        ex = []
+        for head in ['/*', '/r', '//a', '.', '/*/*', '(//a)', '//c/..']:
+            for t in ['a', 'b', '*', 'node()', 'text()']:
+                for p in ['[1]', '[2]', '[last()]', '[position() = 2]', '[position() < last()]', '[1][@x]', '[@x][1]']:
+                    ex.append('%s//%s%s' % (head, t, p))
+                    ex.append('count(%s//%s%s)' % (head, t, p))
+        for k in range(0, len(ex), 28):
+            out.append({'doc': d, 'exprs': ex[k:k + 28], 'merged': True, 'binds': [('p', 'urn:p')]})
     return out
 
 def scalar_items():
